@@ -332,6 +332,20 @@ fn replay_parse(rest: &[String]) -> ! {
                     ok = false;
                 }
             }
+            // the same value with the decimal point right after a zero 20th digit, through a Filter iterator
+            let n = int.len() + frac.len();
+            if n > 20 && int.len() != 20 {
+                let mut joined = int.clone();
+                joined.extend_from_slice(&frac);
+                let ex = exp as i64 - frac.len() as i64 + (n as i64 - 20);
+                if joined[0] != b'0' && joined[19] == b'0' && joined[n - 1] != b'0' && ex >= i32::MIN as i64 && ex <= i32::MAX as i64 {
+                    let alt = if fmt == "f32" { real::parse_lossy::<f32>(&joined[..20], &joined[20..], ex as i32, 0) } else { real::parse_lossy::<f64>(&joined[..20], &joined[20..], ex as i32, 0) };
+                    if !matches!(alt, Ok(b) if check(&v, f, b)) {
+                        println!("REPLAY cfg={} fmt={} input={} split after its (zero) 20th digit, through a filter iterator got={:x?} want={:#x} ok=false", real::cfg_name(), fmt, show, alt, want);
+                        ok = false;
+                    }
+                }
+            }
             std::process::exit(if ok { 0 } else { 1 });
         },
         Err(m) => {
